@@ -916,6 +916,9 @@ size_t derOIDDec(char* oid, size_t* len, const octet der[], size_t count)
 			val = 0;
 		}
 	}
+	// пустое значение? последний sid не завершен?
+	if (l == 0 || (der[l - 1] & 128))
+		return SIZE_MAX;
 	// очистка и выход
 	d1 = val = 0, pos = l = 0;
 	oid ? oid[oid_len] = '\0' : oid_len;
@@ -980,6 +983,9 @@ size_t derOIDDec2(const octet der[], size_t count, const char* oid)
 			oid += oid_delta, val = 0;
 		}
 	}
+	// пустое значение? последний sid не завершен?
+	if (len == 0 || (der[len - 1] & 128))
+		return SIZE_MAX;
 	// очистка и выход
 	d1 = val = 0, pos = len = 0;
 	if (*oid != '\0')
